@@ -236,6 +236,21 @@ class C01Machine(Machine):
         self.schedule_no += 1
 
     def apply(self, op):
+        try:
+            return self._apply(op)
+        except Violation:
+            raise
+        except Exception as e:  # noqa: BLE001
+            from ..env import HarnessError
+            if isinstance(e, HarnessError):
+                raise
+            # every delivery in a schedule is valid by construction (strict-valid owner map, pieces that
+            # match exactly their own record): a route that cannot take it while another can makes the
+            # converter depend on how the records were supplied
+            raise Violation(PROP, "valid_delivery_raised", op.get("op", "?"),
+                            {"exception": type(e).__name__, "message": str(e)[:300], "op": op})
+
+    def _apply(self, op):
         c = self.curies
         Record, Converter = c.Record, c.Converter
         kind = op["op"]
